@@ -214,7 +214,7 @@ def replay(harness, config, case):
 
 def explore(run, step_fn, quick):
     depth = {"T1": 4, "T2": 3, "T3": 3, "T4": 4, "T5": 3, "T6": 3, "T7": 3, "TU": 2} if quick else \
-            {"T1": 5, "T2": 5, "T3": 4, "T4": 4, "T5": 4, "T6": 4, "T7": 4, "TU": 3}
+            {"T1": 5, "T2": 4, "T3": 4, "T4": 4, "T5": 4, "T6": 4, "T7": 4, "TU": 3}
     frag = {"T1": ["div"], "T2": ["table"], "T3": ["select"], "T4": ["html"], "T5": ["div"], "T6": ["p"], "T7": ["title"], "TU": ["div"]}
     classes = {}
     tot_s = tot_t = 0
